@@ -137,6 +137,19 @@ def main():
     os.makedirs(dst, exist_ok=True)
     shutil.copy(patch, dst + "/patch.diff")
     shutil.copy(os.path.join(out, demo["file"]), os.path.join(dst, demo["file"]))
+    notes = [a.split("=", 1)[1] for a in sys.argv if a.startswith("--note=")]
+    prev = {}
+    if os.path.exists(dst + "/meta.json"):
+        try:
+            prev = json.load(open(dst + "/meta.json")).get("evaluation", {})
+        except Exception:
+            prev = {}
+    if skip_confirm and prev:
+        # keep the confirmation results of the earlier full evaluation
+        for k, v in prev.get("ran", {}).items():
+            report["ran"].setdefault(k, v)
+        report["confirmed"] = prev.get("confirmed")
+    report["history"] = prev.get("history", []) + notes
     meta["evaluation"] = report
     with open(dst + "/meta.json", "w") as f:
         json.dump(meta, f, indent=1)
